@@ -48,7 +48,7 @@ CHECKS = {
    note='Trusted base: the reflective canonical dump (complete, so states are never merged wrongly), the prefix-set model, the constant override of listSize for the small variant. Alphabet of 7 ranges + 5 invalid shapes; prefix lengths 0,1,8,9,12,32.'),
  'C04': dict(engine='vstate', cat='model_checking', ref='4 (C04), 2.3',
    technique='exhaustive enumeration of route tables (states) built on the real Mux in every registration order x all request paths/methods of a small alphabet dispatched through ServeHTTP (transitions), judged by an independent reference router',
-   text='All tables of <=2 (quick) / <=3 (thorough) routes over 37 patterns x 3 methods (single-route tables: 162 patterns x 5 methods), every registration order (each judged against the reference router), registrations that are rejected (recovered by the caller, the Mux used on) included, 3105 request paths x 5 method strings each; exactly one handler exactly once, no panic, the handler the documented precedence selects, its RouteInfo, and every parameter lookup bound to the exact path text. After each table one request per route (and one unmatched) is served with a panicking handler and the table is judged again; patterns include literal segments that merely begin with \'*\' or \':\'.',
+   text='All tables of <=2 (quick) / <=3 (thorough) routes over 37 patterns x 3 methods (single-route tables: 162 patterns x 5 methods), every registration order (tables of three routes: as registered and reversed; each judged against the reference router), registrations that are rejected (recovered by the caller, the Mux used on) included, 3105 request paths x 5 method strings each; exactly one handler exactly once, no panic, the handler the documented precedence selects, its RouteInfo, and every parameter lookup bound to the exact path text. After each table one request per route (and one unmatched) is served with a panicking handler and the table is judged again; patterns include literal segments that merely begin with \'*\' or \':\'.',
    note='Trusted base: the reference router written from the statement (greedy literal > :param > *, empty segments skipped except a final one, root first, exact method > *). Paths without a leading slash: only one-handler-once-no-panic is required (segmentation undefined by the statement). Patterns without a leading slash are not generated.'),
  'C05': dict(engine='vstate+vsched', cat='model_checking', ref='4 (C05), 2.2, 2.3',
    technique='explicit-state BFS over request/registration histories on one real Mux with explicit pool choices, differential oracle against a fresh Mux; plus stateless model checking of 2-3 concurrent requests with race detection',
